@@ -3,6 +3,7 @@ pub mod alloc;
 pub mod btor;
 pub mod drivers;
 pub mod engine;
+pub mod fuzzdec;
 pub mod gen;
 pub mod inputs;
 pub mod props;
